@@ -237,6 +237,8 @@ class World(object):
 
     # ---------------------------------------------------------------- actions
     def settle(self):
+        if getattr(self, 'lazy', False):
+            return          # a '~' event: the rest of the instant is left for the next event (session.apply_event)
         reactor.settle(self.chooser)
 
     def accept(self, idx=0):
@@ -256,6 +258,8 @@ class World(object):
         return True
 
     def tick(self):
+        if getattr(self, 'lazy', False):
+            return reactor.step_one(self.chooser)
         r = reactor.advance_to_next(self.chooser)
         return r
 
